@@ -81,6 +81,7 @@ public:
 
   Map(const Scalar* coeffs) : data_(coeffs) { }
 
+  Map(const Map&) = default;
   Map(Map&&) = default;
 
   const DataType& coeffs() const { return data_; }
